@@ -34,6 +34,7 @@ type Plan struct {
 	DownLen  int    `json:"down"`
 	DownPc   int    `json:"down_piece"`
 	Status   int    `json:"status"`
+	DownLate bool   `json:"down_unannounced_trailer,omitempty"`
 	DownTr   bool   `json:"down_trailers"`
 	Class    string `json:"class"` // normal | alpn_control_bytes | hello_fragment_in_cipher_list
 	Preserve bool   `json:"preserve_host"`
@@ -120,6 +121,12 @@ func backend(w http.ResponseWriter, r *http.Request) {
 		w.Header().Set("Trailer", "X-Down-Trailer")
 	}
 	w.WriteHeader(p.Status)
+	if p.DownLate {
+		// without an announced trailer net/http would give a short response a Content-Length and could not send trailers at all
+		if f, ok := w.(http.Flusher); ok {
+			f.Flush()
+		}
+	}
 	sent := 0
 	for sent < p.DownLen {
 		k := p.DownPc
@@ -134,6 +141,9 @@ func backend(w http.ResponseWriter, r *http.Request) {
 	}
 	if p.DownTr {
 		w.Header().Set("X-Down-Trailer", "d"+strconv.Itoa(id))
+	}
+	if p.DownLate { // a trailer the response did not announce
+		w.Header().Set(http.TrailerPrefix+"X-Down-Late", "l"+strconv.Itoa(id))
 	}
 }
 
@@ -158,6 +168,9 @@ func downOK(p *Plan, h http.Header, trailer http.Header) (bool, bool) {
 	tok := true
 	if p.DownTr {
 		tok = trailer.Get("X-Down-Trailer") == "d"+strconv.Itoa(p.ID)
+	}
+	if p.DownLate && trailer.Get("X-Down-Late") != "l"+strconv.Itoa(p.ID) {
+		tok = false
 	}
 	return hok, tok
 }
@@ -462,7 +475,7 @@ func main() {
 	mk := func(proto string, class string, preserve bool, fix ...func(*Plan)) *Plan {
 		p := &Plan{ID: nextID, Proto: proto, Method: []string{"POST", "PUT", "PATCH", "GET", "DELETE", "OPTIONS"}[rng.Intn(6)], Target: targets[rng.Intn(len(targets))],
 			UpLen: sizes[rng.Intn(len(sizes))], DownLen: sizes[rng.Intn(len(sizes))], DownPc: []int{1, 100, 4096, 70000}[rng.Intn(4)],
-			Status: []int{200, 201, 404, 500}[rng.Intn(4)], DownTr: rng.Intn(3) == 0, Class: class, Preserve: preserve}
+			Status: []int{200, 201, 404, 500}[rng.Intn(4)], DownTr: rng.Intn(3) == 0, DownLate: rng.Intn(3) == 0, Class: class, Preserve: preserve}
 		if p.DownPc == 1 && p.DownLen > 5000 {
 			p.DownPc = 333
 		}
@@ -513,6 +526,9 @@ func main() {
 					fx := fx
 					ps = append(ps, mk(proto, "normal", preserve, func(p *Plan) {
 						p.Method, p.UpMode, p.UpLen, p.UpTrail = fx[0].(string), fx[1].(string), fx[2].(int), false
+						if fx[2].(int) == 1000 { // ... and the response carries an announced and an unannounced trailer together
+							p.DownTr, p.DownLate = true, true
+						}
 					}))
 				}
 			}
